@@ -20,6 +20,9 @@ const REL3: &str = "rel3 = #(@-> 'int) { =p, f = [\"/rel3\" .0, 577, 420] __file
 const POLL: &str = "poll = #[(@-> 'int), 'int] { =[p, s], x = [! [p, 0]], w = [s, 0] spin, 1 }";
 const POLLW: &str = "pollw = #[(@-> 'int), (@'int)] { =[p, gt], x = [! [p, 0]], 1 gt, g = !'int, [g, 1] __integer_add__ }";
 const GATE: &str = "gate = #{ !'int }";
+/// a supervisor: one select over the victim and processes that never finish
+const SUP: &str = "sup = #[(@-> 'int), (@-> 'int), (@-> 'int), 'int] { =[a, b, c, s], w = [s, 0] spin, ! [a, b, c] }";
+const NEVER: &str = "never = #{ !'int }";
 const SINK: &str = "sink = #{ !#\\File, 5 }";
 
 #[derive(Clone, Copy, Debug, PartialEq)]
@@ -177,7 +180,7 @@ impl Property for C15 {
         let receives = !filter_kind && rng.chance(1, 2);
         let vspin = *rng.pick(&[0u32, 0, 5, 20, 60]);
         let (vdef, io) = victim_def(f, vspin, receives);
-        let mut defs: Vec<String> = vec![super::c04::SPIN.into(), AW.into(), BY.into(), SNDV.into(), REL.into(), REL2.into(), REL3.into(), POLL.into(), POLLW.into(), GATE.into()];
+        let mut defs: Vec<String> = vec![super::c04::SPIN.into(), AW.into(), BY.into(), SNDV.into(), REL.into(), REL2.into(), REL3.into(), POLL.into(), POLLW.into(), GATE.into(), SUP.into(), NEVER.into()];
         if f == Fail::Ownership {
             defs.push(SINK.into());
         }
@@ -255,6 +258,23 @@ impl Property for C15 {
             let p = fresh_path(&mut next_child);
             expect_err.push(p);
             aw_names.push(format!("a{i}"));
+        }
+        // a supervisor whose one select lists the victim among processes that never finish, in any
+        // position: when its query is answered some entries say "failed", others "not finished yet"
+        if rng.chance(1, 3) {
+            body.push("nv1 = @never".to_string());
+            let _ = fresh_path(&mut next_child);
+            body.push("nv2 = @never".to_string());
+            let _ = fresh_path(&mut next_child);
+            let order = match rng.below(3) {
+                0 => "&v, &nv1, &nv2",
+                1 => "&nv1, &v, &nv2",
+                _ => "&nv1, &nv2, &v",
+            };
+            body.push(format!("sp = [{order}, {}] @sup", *rng.pick(&[0u32, 0, 20, 120])));
+            let p = fresh_path(&mut next_child);
+            expect_err.push(p);
+            h.u64(0x5a);
         }
         // senders / direct sends to the victim
         let mut senders = 0;
